@@ -26,6 +26,13 @@ Definition run_mode (L : nat) (j : Z) (normalize : bool) (pts : list (Qc * Qc * 
   | Err e => [1; errcode e]
   end.
 
+Definition edm (nr nc : Z) (d : default_mode) : list Z :=
+  dm_norm2 d :: (if dm_odd d then 1 else 0) :: eQ (dm_rmax2 d)
+  ++ flat_map (fun i => flat_map (fun j => eQ (dm_val d i j)) (zrange nc)) (zrange nr).
+Definition zargs_of (k : Z) : option zargs :=
+  if k =? 0 then Some ArgNone else if k =? 1 then Some ArgRhoOnly else if k =? 2 then Some ArgThetaOnly
+  else if k =? 3 then Some ArgBoth else None.
+
 Definition run (inp : list Z) : list Z :=
   match inp with
   | 1 :: lo :: cnt :: nil =>        (* closed form of Noll's ordering for lo <= j < lo + cnt *)
@@ -51,6 +58,20 @@ Definition run (inp : list Z) : list Z :=
       match pall (calls <- plist (ppair pZ pbool) ;; pts <- plist ppt ;; pret (calls, pts)) rest with
       | Some (calls, pts) => 0 :: flat_map (fun jn => run_mode (Z.to_nat Lz) (fst jn) (snd jn) pts) calls
       | None => emalformed end
+  | 7 :: ak :: nz :: rest =>        (* zernike / zernike_basis entry: argument branch, default-coordinate modes *)
+      match zargs_of ak, pall (modes <- plist pZ ;; mask <- parrQ ;; pret (modes, mask)) rest with
+      | Some a, Some (modes, mask) =>
+          match zernike_branch a with
+          | Err e => [1; errcode e]
+          | Ok false =>                        (* caller-supplied coordinates: values by op 3 / op 6 *)
+              match modes_valid modes with Ok _ => [0; 0] | Err e => [1; errcode e] end
+          | Ok true =>
+              match zernike_basis_default mask modes (negb (nz =? 0)) with
+              | Ok ds => 0 :: 1 :: elist (edm (nr mask) (nc mask)) ds
+              | Err e => [1; errcode e]
+              end
+          end
+      | _, _ => emalformed end
   | _ => emalformed
   end.
 
